@@ -115,6 +115,7 @@ namespace pika::thread_pool_bulk_detail {
                     auto const i_end = (std::min)(
                         (static_cast<Shape>(index) + 1) * static_cast<Shape>(task_f->chunk_size),
                         task_f->n);
+                    PIKA_VERIF_POST("bulk.chunk", op_state, index, task_f->worker_thread);
                     for (auto i = i_begin; i < i_end; ++i)
                     {
                         std::apply(pika::util::detail::bind_front(op_state->f, i), ts);
@@ -200,6 +201,7 @@ namespace pika::thread_pool_bulk_detail {
                     if (!op_state->exception_thrown.exchange(true))
                     {
                         // NOLINTNEXTLINE(bugprone-throw-keyword-missing)
+                        PIKA_VERIF_POST("bulk.exc", op_state, worker_thread, 0);
                         op_state->exception = std::current_exception();
                     }
                 }
@@ -212,8 +214,10 @@ namespace pika::thread_pool_bulk_detail {
                 // receiver.
                 void finish() const
                 {
+                    PIKA_VERIF_POINT("bulk.dec", op_state, worker_thread, 0);
                     if (--(op_state->tasks_remaining) == 0)
                     {
+                        PIKA_VERIF_POST("bulk.last", op_state, worker_thread, op_state->exception_thrown.load());
                         if (op_state->exception_thrown)
                         {
                             PIKA_ASSERT(op_state->exception.has_value());
@@ -227,6 +231,7 @@ namespace pika::thread_pool_bulk_detail {
                                 set_value_end_loop_visitor{op_state}, std::move(op_state->ts));
                         }
                     }
+                    else { PIKA_VERIF_POST("bulk.notlast", nullptr, worker_thread, 0); }
                 }
 
                 // Entry point for the worker thread. It will attempt to
@@ -235,6 +240,7 @@ namespace pika::thread_pool_bulk_detail {
                 // receiver.
                 void operator()()
                 {
+                    PIKA_VERIF_POST("bulk.task", op_state, worker_thread, 0);
                     try
                     {
                         // If f has a different annotation than the
@@ -278,6 +284,7 @@ namespace pika::thread_pool_bulk_detail {
                 auto const part_end = static_cast<std::uint32_t>(
                     ((worker_thread + 1) * num_chunks) / op_state->num_worker_threads);
                 queue.reset(part_begin, part_end);
+                PIKA_VERIF_POST("bulk.initq", &queue, part_begin, part_end);
             }
 
             // Spawn a task which will process a number of chunks. If
@@ -292,6 +299,7 @@ namespace pika::thread_pool_bulk_detail {
                 {
                     // If the queue is empty we don't spawn a task. We
                     // only signal that this "task" is ready.
+                    PIKA_VERIF_POST("bulk.skip", op_state, worker_thread, 0);
                     task_f.finish();
                     return;
                 }
@@ -318,6 +326,7 @@ namespace pika::thread_pool_bulk_detail {
                     threads::detail::make_thread_function_nullary(std::move(task_f)), desc,
                     pika::execution::experimental::get_priority(op_state->scheduler), hint,
                     pika::execution::experimental::get_stacksize(op_state->scheduler));
+                PIKA_VERIF_POST("bulk.spawn", op_state, worker_thread, 0);
                 threads::detail::register_work(data, op_state->scheduler.get_thread_pool());
             }
 
@@ -337,6 +346,7 @@ namespace pika::thread_pool_bulk_detail {
                 // Don't spawn tasks if there is no work to be done
                 if (r.op_state->shape == 0)
                 {
+                    PIKA_VERIF_POST("bulk.zero", r.op_state, 0, r.op_state->num_worker_threads);
                     pika::execution::experimental::set_value(
                         std::move(r.op_state->receiver), std::forward<Ts>(ts)...);
                     return;
@@ -346,6 +356,7 @@ namespace pika::thread_pool_bulk_detail {
                 auto const chunk_size =
                     get_chunk_size(r.op_state->num_worker_threads, r.op_state->shape);
                 auto const num_chunks = (r.op_state->shape + chunk_size - 1) / chunk_size;
+                PIKA_VERIF_POST("bulk.plan", r.op_state, chunk_size, num_chunks);
 
                 // Store sent values in the operation state
                 r.op_state->ts.template emplace<std::tuple<std::decay_t<Ts>...>>(
@@ -362,6 +373,7 @@ namespace pika::thread_pool_bulk_detail {
 
                 // Spawn the worker threads for all except the local queue.
                 auto const local_worker_thread = pika::get_local_worker_thread_num();
+                PIKA_VERIF_POST("bulk.local", r.op_state, local_worker_thread, r.op_state->num_worker_threads);
                 for (std::size_t worker_thread = 0; worker_thread < r.op_state->num_worker_threads;
                      ++worker_thread)
                 {
